@@ -29,7 +29,7 @@ pub fn build_for(inst: &Value, idx: u64, opts: &TableOpts) -> (InstGraph, Vec<u8
     let mut rng = rng_for(opts.seed, idx);
     let map = g.label_map(&mut rng, opts.plain_labels);
     let swap: Vec<bool> = (0..g.ne()).map(|_| !opts.plain_labels && rng.gen_bool(0.5)).collect();
-    let spec = g.to_spec(&map, &swap);
+    let spec = g.to_spec_messy(&map, &swap, &mut rng);
     // any signature is accepted at build time; use a column per loop of zeros
     let l = inst["L"].as_i64().unwrap_or(1).max(1) as usize;
     let sig = vec![vec![0isize; l]; g.ne()];
